@@ -1732,8 +1732,9 @@ def partition_distance(cx, cy):
     where H is entropy, MI is mutual information and n is number of nodes)
     '''
     n = np.size(cx)
-    _, cx = np.unique(cx, return_inverse=True)
-    _, cy = np.unique(cy, return_inverse=True)
+    # Nx1 (as documented), 1xN or 1-D: the two vectors are paired node by node, never broadcast against each other
+    _, cx = np.unique(np.ravel(cx), return_inverse=True)
+    _, cy = np.unique(np.ravel(cy), return_inverse=True)
     _, cxy = np.unique(cx + cy * 1j, return_inverse=True)
 
     cx += 1
